@@ -13,3 +13,17 @@ func VerifWriteUnionConverters(u *dsl.GeneralizedType) string {
 	writeUnionConverters(w, u)
 	return b.String()
 }
+
+// VerifWriteEnumConverters: what the NDJSON source file emits for one enum / flags definition:
+// the symbol table followed by to_json / from_json.
+func VerifWriteEnumConverters(t *dsl.EnumDefinition) string {
+	b := bytes.Buffer{}
+	w := formatting.NewIndentedWriter(&b, "  ")
+	writeEnumValuesMap(w, t)
+	if t.IsFlags {
+		writeFlagsConverters(w, t)
+	} else {
+		writeEnumConverters(w, t)
+	}
+	return b.String()
+}
